@@ -10,14 +10,24 @@ use serde_json::{json, Value};
 use vph::fgen;
 use vph::refdec;
 
-pub const RULE: &str = "(1) for each file of the damage corpus (crate-encoded mono/stereo/multichannel files with and without seek table and with unknown total; fgen-built files covering verbatim/constant/fixed/LPC subframes, wasted bits, escaped partitions, 5-bit Rice method, variable blocking and all stereo modes): EVERY single-bit flip at or after the first frame byte and EVERY truncation length, decoded through 4 reader front-ends + verify_reader, plus every bit of the stored MD5; (2) every must-reject class (bad sync, reserved header bit, reserved/illegal block-size, rate, channel, depth codes, malformed coded numbers, wrong CRC-8/CRC-16, header fields inconsistent with STREAMINFO, frame exceeding the declared total, subframe pad bit, reserved subframe types, wasted bits ≥ depth, precision 1111, negative shift, reserved coding methods, illegal partition orders) generated with valid checksums in frame 0 and in the last frame of the plain stream and of every stream within 1 (thorough 2) valid deviations; oracle: Ok ⇒ the independent decoder accepts the altered bytes with the same PCM; Err ⇒ samples delivered before it are a whole-frame prefix of the original and contain nothing of a must-reject frame; MD5Match only if the decoded PCM hashes to the stored digest";
-pub const ASSUMPTIONS: &[&str] = &["damage limited to one bit flip or one truncation per file; two simultaneous malformations only as (malformation × valid deviation)", "codes a decoder may but need not reject (non-zero padding, residual = -2^31, out-of-range reconstructed samples, short non-final blocks of 15 samples, zero-length first partition) impose no verdict"];
+pub const RULE: &str = "(1) for each file of the damage corpus (crate-encoded mono/stereo/multichannel files with and without seek table and with unknown total; fgen-built files covering verbatim/constant/fixed/LPC subframes, wasted bits, escaped partitions, 5-bit Rice method, variable blocking and all stereo modes): EVERY single-bit flip at or after the first frame byte and EVERY truncation length, decoded through 4 reader front-ends + verify_reader, plus every bit of the stored MD5; (2) every must-reject class (bad sync, reserved header bit, reserved/illegal block-size, rate, channel, depth codes, malformed coded numbers, wrong CRC-8/CRC-16, header fields inconsistent with STREAMINFO, frame exceeding the declared total, subframe pad bit, reserved subframe types, wasted bits ≥ depth, precision 1111, negative shift, reserved coding methods, illegal partition orders, non-final blocks of 1..14 samples in fixed- and variable-blocksize streams) generated with valid checksums in frame 0 and in the last frame of the plain stream and of every stream within 1 (thorough 2) valid deviations; oracle: Ok ⇒ the independent decoder accepts the altered bytes with the same PCM; Err ⇒ samples delivered before it are a whole-frame prefix of the original and contain nothing of a must-reject frame; MD5Match only if the decoded PCM hashes to the stored digest";
+pub const ASSUMPTIONS: &[&str] = &["damage limited to one bit flip or one truncation per file; two simultaneous malformations only as (malformation × valid deviation)", "codes a decoder may but need not reject (non-zero padding, residual = -2^31, out-of-range reconstructed samples, a non-final block of exactly 15 samples, zero-length first partition) impose no verdict; non-final blocks of <= 14 samples must be rejected (the crate's short-block rule)"];
 pub fn bounds(quick: bool) -> Value {
     json!({"corpus_files": if quick { "13" } else { "32" }, "bit_flips": "every bit from the first frame byte on", "truncations": "every length", "malformed_pairs": if quick { "bad × ≤1 valid deviation" } else { "bad × ≤2 valid deviations" }})
 }
 
 const READERS: [ReaderKind; 4] = [ReaderKind::SampleFill, ReaderKind::ByteLE, ReaderKind::Channel, ReaderKind::SampleRead];
 const MAY_ACCEPT: [&str; 4] = ["residual-min", "residual-range", "sample-range", "short-nonfinal-block"];
+
+/// "only the last block may be shorter than 16 samples": the crate enforces <= 14 (a 15-sample non-final block is a grey
+/// zone between the RFC's < 16 and the crate's rule and gets no verdict); shorter non-final blocks must be rejected.
+fn short_block_must_reject(rej: &refdec::Reject) -> bool {
+    if rej.code != "short-nonfinal-block" {
+        return false;
+    }
+    // message: "... has block size N but is not the last frame"
+    rej.msg.split("block size ").nth(1).and_then(|t| t.split_whitespace().next()).and_then(|n| n.parse::<u32>().ok()).map(|n| n <= 14).unwrap_or(false)
+}
 
 /// `orig_pcm` + cumulative interleaved sample counts per original frame; `bad_from`: index of the first frame whose
 /// samples must not be delivered (usize::MAX = none).
@@ -35,7 +45,7 @@ pub fn judge(altered: &[u8], orig_pcm: &[i32], cum: &[usize], bad_from: usize) -
                         return Some(("decodes-differently-from-independent-decoder".into(), format!("{r:?} returns Ok with {} samples, the independent decoder gives {} (first difference at {:?})", d.pcm.len(), st.pcm.len(), d.pcm.iter().zip(&st.pcm).position(|(a, b)| a != b))));
                     }
                 }
-                Err(rej) if MAY_ACCEPT.contains(&rej.code) => {}
+                Err(rej) if MAY_ACCEPT.contains(&rej.code) && !short_block_must_reject(rej) => {}
                 Err(rej) => return Some((format!("invalid-stream-decoded-silently|{}", rej.code), format!("{r:?} returns Ok ({} samples) for bytes the independent decoder rejects: {} ({})", d.pcm.len(), rej.code, rej.msg))),
             },
             Err((e, got)) => {
@@ -61,7 +71,7 @@ pub fn judge(altered: &[u8], orig_pcm: &[i32], cum: &[usize], bad_from: usize) -
         let ok = match &reference {
             Ok(st) => refdec::pcm_md5(&st.pcm, st.info.bps) == st.info.md5,
             // streams a decoder may accept although the strict reference does not: no verdict
-            Err(rej) => MAY_ACCEPT.contains(&rej.code),
+            Err(rej) => MAY_ACCEPT.contains(&rej.code) && !short_block_must_reject(rej),
         };
         if !ok {
             return Some(("false-md5-match".into(), "verify_reader reports MD5Match although the bytes do not decode to PCM with the stored digest".into()));
@@ -181,6 +191,7 @@ pub fn run(ctx: &Ctx, acc: &mut Acc) {
                 let bad_from = if !knob.must_reject { usize::MAX } else { match knob.name {
                     "total-too-small" => base.frames.len() - 1,
                     "total-too-large" => usize::MAX,
+                    "short-nonfinal-block-5" | "short-nonfinal-block-14" => 0,
                     "block>info-max" => { let mx = base.frames.iter().map(|f| f.pcm[0].len()).max().unwrap(); base.frames.iter().position(|f| f.pcm[0].len() == mx).unwrap() }
                     _ => fidx,
                 } };
